@@ -343,7 +343,7 @@ namespace via
 
       comms::ConstBuffers buffers(1, ASIO::buffer(tx_header_));
       buffers.push_back(ASIO::buffer(tx_body_));
-      buffers.push_back(ASIO::buffer(http::CRLF));
+      buffers.push_back(ASIO::buffer(http::CRLF, 2));
       return send(std::move(buffers));
     }
 
@@ -361,7 +361,7 @@ namespace via
       chunk_header header(size, extension);
       tx_header_ = header.to_string();
       buffers.push_front(ASIO::buffer(tx_header_));
-      buffers.push_back(ASIO::buffer(http::CRLF));
+      buffers.push_back(ASIO::buffer(http::CRLF, 2));
       return send(std::move(buffers));
     }
 
